@@ -8,7 +8,7 @@ STUBS = LOOP_STUBS
 ASSUMPTIONS = ["children/body/environment as described in tg_scn; 'exit' is the first instruction after the `async with` block (a finally clause around it)"]
 OUTSIDE = ["more than 3 children, nesting depth > 2", "uvloop, trio"]
 MUST_REACH = ["handle-finished", "handle-cancelled", "handle-failed", "child-cancelled", "child-returned", "grandchild-joined", "shielded-cleanup-ran",
-              "host-native-cancel-in-aexit", "late-start-refused-or-joined", "group-raised"]
+              "host-native-cancel-in-aexit", "late-start-refused-or-joined", "group-raised", "external-spawn-accepted", "external-spawn-refused"]
 
 
 def units(tier):
@@ -35,6 +35,9 @@ def units(tier):
     add("N group-cancel", [("N", "task")], env=("group",))
     add("B start + R handle0-cancel", [("B", "task"), ("R", "start")], env=("handle0", "group"))
     add("R+R+B group-cancel", [("R", "task"), ("R", "task"), ("B", "task")], env=("group",), J=0)
+    add("no children, external spawn", [], env=("spawn",), J=3)
+    add("R, external spawn", [("R", "soon")], env=("spawn",), J=3)
+    add("B, external spawn + group-cancel", [("B", "task")], env=("spawn", "group"), J=2)
     if not quick:
         add("C+C+E", [("C", "task"), ("C", "soon"), ("E", "task")], J=2)
         add("C host-native x2 eager", [("C", "task")], env=("host", "host"), J=2, eager=True)
